@@ -443,6 +443,8 @@ pub struct Script {
     pub mono_back: Option<(usize, usize, u64)>,
     /// the consumer polls the event stream with a different waker each time (two wakers, alternating)
     pub switch_wakers: bool,
+    /// when perform_install is called the embedder writes new versions into the shared app set
+    pub embedder_bumps_versions_at_install: bool,
 }
 
 impl Default for Script {
@@ -477,6 +479,7 @@ impl Default for Script {
             content_type_mask: 0,
             mono_back: None,
             switch_wakers: false,
+            embedder_bumps_versions_at_install: false,
         }
     }
 }
